@@ -31,6 +31,8 @@ class Check:
     theorems: List[str] = []  # property theorems audited with #print axioms
     gen_sources: List[str] = []  # repo files the translator reads for this property
     level = "proof"
+    level_text = ""      # MANIFEST: what assurance this check gives
+    technique = "Lean 4 theorems on an executable model + differential correspondence with the implementation; exact certified judge as failing-input search"
     trusted_base: List[str] = []
     assumptions: List[str] = []
     quick_n = 200
@@ -201,6 +203,7 @@ def run_check(check: Check, tier: str, replay: Optional[str] = None) -> int:
 
     # 4. compare -----------------------------------------------------------------------------------
     mismatches: List[int] = []
+    tie_idx: List[int] = []
     stuck = 0
     tie_divergent = 0
     branches: Dict[str, int] = {}
@@ -222,20 +225,21 @@ def run_check(check: Check, tier: str, replay: Optional[str] = None) -> int:
             agree += 1
         elif d.startswith("TIE:"):
             tie_divergent += 1
+            tie_idx.append(i)
         else:
             mismatches.append(i)
             if len(mismatches) <= 3:
                 notes.append(f"correspondence: case {i}: {d}")
 
     # 5. judge -------------------------------------------------------------------------------------
-    to_judge = set(mismatches)
+    to_judge = set(mismatches) | set(tie_idx)
     if broken or mismatches:
         to_judge = set(range(len(cases)))  # failing-input search over everything explored
     else:
         k = check.judge_sample if tier == "quick" else check.judge_sample * 10
         pool = list(range(len(cases)))
         rng.shuffle(pool)
-        to_judge |= set(pool[:k])
+        to_judge |= set(pool[:k]) | set(tie_idx)
     jl = sorted(to_judge)
     verdicts = pmap(check, _judge_worker, [(cases[i], impls[i]) for i in jl])
     violations: List[Tuple[int, dict]] = [(i, v) for i, v in zip(jl, verdicts) if v is not None]
